@@ -471,6 +471,16 @@ def check(ctx, case):
 # generators
 # ================================================================================================
 SEEDS = st.integers(0, 2**31 - 1)
+# seed forms the public API accepts (checked on the clean tree): any non-negative Python int -- numpy's
+# default_rng takes arbitrarily large ones, the torch generator is seeded with seed % 2**32 -- or a
+# fresh np.random.default_rng(seed) object (rng_form "gen").  Timestamp- and hash-style seeds are
+# >= 2**32.
+BIG_SEEDS = st.one_of(
+    st.integers(0, 2**31 - 1),
+    st.sampled_from([0, 1, 2**31 - 1, 2**32 - 1, 2**32, 2**32 + 17, 2**63 - 1, 2**64 - 1, 20260926093000]),
+    st.integers(10**13, 10**14 - 1),  # 14-digit timestamps
+    st.integers(2**32, 2**64 - 1),
+)
 
 
 @st.composite
@@ -502,7 +512,7 @@ def batcher_cases(draw):
         "val_ratio": ratio,
         "val_mode": draw(st.sampled_from(["grid", "random"])),
         "shuffle": draw(st.booleans()),
-        "seed": draw(SEEDS),
+        "seed": draw(BIG_SEEDS),
         "rng": draw(st.sampled_from(["int", "gen"])),
     }
 
@@ -523,14 +533,42 @@ def split_cases(draw):
 VAL_RATIOS = [0.1, 0.2, 0.25, 0.3, 1.0 / 3.0, 0.4, 0.5, 0.6, 0.7, 0.75]
 
 
+SOFT_W = [0.5, 2.0, 5.0]
+
+
 @st.composite
-def _problem(draw, loss_type=None):
+def _soft(draw, S):
+    """Active soft constraints: every soft term the object / probe / dataset models offer (object TV in
+    the plane and along z, surface-zero; probe TV; descan TV).  tv_weight_z needs >= 2 slices and
+    surface_zero_weight >= 3 slices to be non-zero."""
+    obj = {}
+    if draw(st.booleans()):
+        obj["tv_weight_xy"] = draw(st.sampled_from(SOFT_W))
+    if S >= 2 and draw(st.booleans()):
+        obj["tv_weight_z"] = draw(st.sampled_from(SOFT_W))
+    if S >= 3 and draw(st.booleans()):
+        obj["surface_zero_weight"] = draw(st.sampled_from(SOFT_W))
+    soft = {}
+    if obj:
+        soft["object"] = obj
+    if draw(st.sampled_from([False, False, True])):
+        soft["probe"] = {"tv_weight": draw(st.sampled_from(SOFT_W))}
+    if draw(st.sampled_from([False, False, True])):
+        soft["dataset"] = {"descan_tv_weight": draw(st.sampled_from(SOFT_W))}
+    if not soft:
+        soft["object"] = {"tv_weight_xy": draw(st.sampled_from(SOFT_W))}
+    return soft
+
+
+@st.composite
+def _problem(draw, loss_type=None, seeds=SEEDS, soft=False):
     val = draw(st.sampled_from([False, False, True]))
-    return {
+    S = draw(st.sampled_from([1, 1, 2, 3] if soft else [1, 1, 2]))
+    c = {
         "R": draw(st.integers(3, 7)),
         "C": draw(st.integers(3, 7)),
         "gpts": [draw(st.integers(2, 5)), draw(st.integers(2, 5))],
-        "S": draw(st.sampled_from([1, 1, 2])),
+        "S": S,
         "M": draw(st.sampled_from([1, 1, 2])),
         "obj_type": draw(st.sampled_from(["complex", "pure_phase", "potential"])),
         "pad": [draw(st.integers(0, 3)), draw(st.integers(0, 3))],
@@ -538,24 +576,34 @@ def _problem(draw, loss_type=None):
         "loss_type": loss_type if loss_type is not None else draw(st.sampled_from(LOSS_TYPES)),
         "val_ratio": draw(st.sampled_from(VAL_RATIOS)) if val else 0.0,
         "val_mode": draw(st.sampled_from(["grid", "random"])),
-        "seed": draw(SEEDS),
+        "seed": draw(seeds),
     }
+    if soft:
+        c["soft"] = draw(_soft(S))
+        if "dataset" in c["soft"]:
+            c["descan_jitter"] = True  # constant descan shifts would make the descan TV term vanish
+    return c
 
 
 LEARN = [["object"], ["object", "probe"], ["object", "probe", "dataset"], ["object", "probe", "dataset"], ["probe"]]
 
 
 @st.composite
-def invariance_cases(draw, loss_type=None):
-    c = draw(_problem(loss_type))
+def invariance_cases(draw, loss_type=None, soft=None):
+    if soft is None:
+        soft = draw(st.booleans())
+    c = draw(_problem(loss_type, soft=soft))
     c["kind"] = "invariance"
     c["learn"] = draw(st.sampled_from(LEARN))
+    if "dataset" in c.get("soft", {}):
+        c["learn"] = ["object", "probe", "dataset"]  # the descan TV term is only active with a dataset optimiser
     return c
 
 
 @st.composite
 def determinism_cases(draw):
-    c = draw(_problem())
+    c = draw(_problem(seeds=BIG_SEEDS))
+    c["rng_form"] = draw(st.sampled_from(["int", "int", "gen"]))
     if draw(st.booleans()) and c["val_ratio"] == 0.0:
         c["val_ratio"] = draw(st.sampled_from(VAL_RATIOS))
     J = c["gpts"][0] * c["gpts"][1]
